@@ -23,7 +23,10 @@ Ltac ctl := unfold same_ctl; cbn [clist to_new wq ipc_ i_rest cpc_ c_rest wpc_ w
                                   set_cpc set_c_rest set_wpc set_w_watch set_tpc]; repeat split; try reflexivity.
 
 Lemma kstep_ctl x k s s' k' es ms : kstep x k s = (s', k', es, ms) -> same_ctl s s'.
-Proof. destruct k; cbn [kstep]; intros H; inversion H; subst; ctl. Qed.
+Proof.
+  destruct k; cbn [kstep]; intros H;
+    repeat match type of H with context [match ?X with _ => _ end] => destruct X end; inversion H; subst; ctl.
+Qed.
 
 (* events and emissions about another uid do not count *)
 Lemma ev_del_neq u x a : x <> u -> event_eqb (ev K_TASKS_DEL u 1) (ev K_TASKS_DEL x a) = false.
@@ -54,17 +57,17 @@ Lemma kstep_other u x k s s' k' es ms c :
   tasks s' u = tasks s u /\ procattr s' u = procattr s u /\ world s' u = world s u /\
   cn_plus c ms u = c /\ existsb (event_eqb (ev K_TASKS_DEL u 1)) es = false.
 Proof.
-  intros N H Hc. destruct k; cbn [kstep] in H; inversion H; subst; clear H;
+  intros N H Hc. destruct k; cbn [kstep] in H;
+    repeat match type of H with context [match ?X with _ => _ end] => destruct X eqn:? end;
+    inversion H; subst; clear H;
     cbn [tasks procattr world set_tasks set_procattr set_world];
     rewrite ?(upd_other _ _ _ _ N);
-    repeat split; try reflexivity;
-    try (apply cn_plus_nil; exact Hc); try (apply cn_plus_uns_other; assumption);
-    try (apply cn_plus_adv_other; assumption).
-  all: try (destruct (is_running (world s x)); cbn [set_world world]; rewrite ?(upd_other _ _ _ _ N); reflexivity).
+    (repeat split; try reflexivity;
+     try (apply cn_plus_nil; exact Hc); try (apply cn_plus_uns_other; assumption);
+     try (apply cn_plus_adv_other; assumption)).
   all: cbn [existsb app]; unfold ev, event_eqb, K_TASKS_DEL, K_PROC_GET, K_POLL, K_LOCK, K_TASKS_IN, K_PID, K_KILL, K_WAIT, K_PROC_DEL;
-    cbn; try reflexivity.
+    cbn; rewrite ?(neq_eqb' _ _ N); cbn; try reflexivity.
   all: try (destruct (tasks s x); cbn; rewrite ?(neq_eqb' _ _ N); cbn; reflexivity).
-  all: try (destruct (is_running (world s x)); cbn; reflexivity).
 Qed.
 
 Lemma lrunning_of p : lrunning (lworld_of p) = is_running p.
@@ -86,19 +89,17 @@ Lemma kstep_same kc u k s s' k' es ms i c t w e o :
   = (mkL kc (mkSh (tasks s' u) (procattr s' u) (lworld_of (world s' u))) i c t w (cn_plus (cnt_of u e) ms u)
          (o || existsb (event_eqb (ev K_TASKS_DEL u 1)) es), k').
 Proof.
-  intros H. destruct k; cbn [kstep] in H; inversion H; subst s' k' es ms; clear H;
+  intros H. destruct k; cbn [kstep] in H;
+    [ | | | destruct (world s u) eqn:EW | destruct (world s u) eqn:EW; cbn [is_running] in H | | | ];
+    inversion H; subst s' k' es ms; clear H;
     cbn [lkstep l_sh l_n h_tasks h_proc h_world tasks procattr world set_tasks set_procattr set_world
          w_own w_sh w_n sh_tasks sh_proc sh_world l_k l_i l_c l_t l_w l_own];
-    rewrite ?lrunning_of, ?upd_same, ?cn_plus_uns_same, ?cn_plus_stcncl_same, ?(cn_plus_nil _ _ (ex_intro _ e eq_refl)).
-  - (* KGet *) cbn. rewrite orb_false_r. destruct (procattr s u); reflexivity.
-  - (* KPoll *) cbn. rewrite orb_false_r. destruct (is_running (world s u)); reflexivity.
-  - (* KLock *) destruct (tasks s u) eqn:E; cbn; rewrite ?Z.eqb_refl; cbn; rewrite ?orb_false_r, ?orb_true_r; reflexivity.
-  - (* KKill *) destruct (is_running (world s u)) eqn:E; cbn [set_world world]; rewrite ?upd_same; cbn;
-      rewrite ?orb_false_r; reflexivity.
-  - (* KWait *) cbn. rewrite orb_false_r. reflexivity.
-  - (* KDel *) cbn. rewrite orb_false_r. reflexivity.
-  - (* KPub *) cbn. rewrite orb_false_r. reflexivity.
-  - (* KAdv *) cbn. rewrite orb_false_r. reflexivity.
+    rewrite ?lrunning_of, ?upd_same, ?cn_plus_uns_same, ?cn_plus_stcncl_same, ?(cn_plus_nil _ _ (ex_intro _ e eq_refl)),
+      ?EW; cbn [lworld_of lrunning is_running].
+  all: try (cbn; rewrite ?orb_false_r; reflexivity).
+  all: try (cbn; rewrite orb_false_r; destruct (procattr s u); reflexivity).
+  all: try (cbn; rewrite orb_false_r; destruct (is_running (world s u)); reflexivity).
+  all: destruct (tasks s u) eqn:E; cbn; rewrite ?Z.eqb_refl; cbn; rewrite ?orb_false_r, ?orb_true_r; reflexivity.
 Qed.
 
 (* ---- the statement, per step ---- *)
@@ -292,9 +293,9 @@ Proof.
   - destruct (Z.eq_dec x u) as [->|N].
     + right. apply in_act_env. rewrite view_snoc. fields. rewrite upd_same.
       unfold act_env. change (h_world (l_sh (view k u s tr))) with (lworld_of (world s u)).
-      destruct (world s u); try discriminate ER. cbn [lworld_of].
-      left. rewrite (cn_plus_nil _ _ (cnt_ex u tr)). cbn. rewrite orb_false_r.
-      unfold w_sh, sh_world, view. cbn [l_k l_sh l_i l_c l_t l_w l_n l_own h_tasks h_proc]. reflexivity.
+      destruct (world s u); try discriminate ER; cbn [lworld_of];
+        (left; rewrite (cn_plus_nil _ _ (cnt_ex u tr)); cbn; rewrite orb_false_r;
+         unfold w_sh, sh_world, view; cbn [l_k l_sh l_i l_c l_t l_w l_n l_own h_tasks h_proc]; reflexivity).
     + left. same_auto. apply upd_other. exact N.
   - left. same_auto.
 Qed.
@@ -428,10 +429,11 @@ Proof.
                 apply mem_remove1_sub in E. congruence. }
               rewrite ER. eexists. split; [left; reflexivity|]. apply iter_next_in'.
       * (* WPoll *)
-        destruct (world s u) as [| |c|] eqn:EWo; inversion H; subst s' es ms; clear H;
+        destruct (world s u) as [| | |c|] eqn:EWo; inversion H; subst s' es ms; clear H;
           rewrite (w_view k u s) by (fields; reflexivity); rewrite (view_unfold k u s tr), EW; fields;
           rewrite (cn_plus_nil _ _ (cnt_ex u tr)); right; apply in_act_w; unfold act_w; lproj;
           cbn [vw f_ph lwt_of]; rewrite Z.eqb_refl; lproj; rewrite EWo; cbn [lworld_of].
+        -- apply iter_next_in'.
         -- apply iter_next_in'.
         -- apply iter_next_in'.
         -- left. reflexivity.
@@ -482,7 +484,8 @@ Proof.
       * destruct (procattr s x) eqn:EP; inversion H; subst s' es ms; clear H.
         -- left. apply Hsame.
         -- right. apply Hnext; fields; try reflexivity. apply mem_remove1_neq. exact N.
-      * destruct (world s x) as [| |c|] eqn:EWo; inversion H; subst s' es ms; clear H.
+      * destruct (world s x) as [| | |c|] eqn:EWo; inversion H; subst s' es ms; clear H.
+        -- right. apply Hnext; fields; reflexivity.
         -- right. apply Hnext; fields; reflexivity.
         -- right. apply Hnext; fields; reflexivity.
         -- left. apply Hsame.
@@ -568,7 +571,7 @@ Proof.
 Qed.
 
 Lemma desc_cur k u s x pc rest :
-  wf k u s -> ipc_ s = ITask pc x rest -> d_uid x = u -> d_fault x = k_fault k /\ d_to x = k_to k.
+  wf k u s -> ipc_ s = ITask pc x rest -> d_uid x = u -> d_fault x = k_fault k /\ d_to x = k_to k /\ d_stub x = k_stub k.
 Proof.
   intros W EI Eu. apply (wf_desc _ _ _ W); [|exact Eu]. unfold ipending, icur. rewrite EI. left. reflexivity.
 Qed.
@@ -604,7 +607,7 @@ Lemma i_same k s s' x pc rest tr es ms :
   proj_ok k (d_uid x) s s' tr (ThI, es, ms).
 Proof.
   intros W EI H. set (u := d_uid x) in *.
-  destruct (desc_cur _ _ _ _ _ _ W EI eq_refl) as [Ef Et].
+  destruct (desc_cur _ _ _ _ _ _ W EI eq_refl) as (Ef & Et & Es).
   assert (Hv : view_i u s = LiAt pc) by (unfold view_i; rewrite EI; unfold u; rewrite Z.eqb_refl; reflexivity).
   assert (Hst : forall s1 pc', view_i u (set_ipc s1 (ITask pc' x rest)) = LiAt pc')
     by (intros; unfold view_i; fields; unfold u; rewrite Z.eqb_refl; reflexivity).
@@ -621,9 +624,9 @@ Proof.
   - (* ITSpawn *)
     destruct (d_fault x) eqn:EF; inversion H; subst s' es ms; clear H;
       rewrite (i_view k u s) by (fields; reflexivity); fields; rewrite (view_unfold k u s tr);
-      right; apply in_act_i; unfold act_i; lproj; rewrite Hv, Hst, <- Ef, ?upd_same;
+      right; apply in_act_i; unfold act_i; lproj; rewrite Hv, Hst, <- Ef, <- ?Es, ?upd_same;
       rewrite (cn_plus_nil _ _ (cnt_ex u tr)); cbn [existsb]; unfold event_eqb, ev, K_TASKS_DEL, K_SPAWN, K_PROC_SET; cbn;
-      rewrite ?orb_false_r; left; reflexivity.
+      rewrite ?orb_false_r; left; destruct (d_stub x); reflexivity.
   - (* ITPid *)
     destruct (procattr s u) eqn:EP; [destruct (d_fault x) eqn:EF|]; inversion H; subst s' es ms; clear H;
       rewrite (i_view k u s) by (fields; reflexivity); fields; rewrite (view_unfold k u s tr);
